@@ -103,4 +103,47 @@ Fixpoint legacy2_elem_spec (t u : ptree) : ptree :=
   | _, _ => t
   end.
 
+(* ---------------- power-space elements through the NumPy API ----------------
+   ProductSpaceElement has no __array_ufunc__: NumPy converts the element with
+   __array__ (a COPY of shape n :: s for n parts of shape s), runs the ufunc on
+   arrays and hands the result to __array_wrap__:
+     0-d result -> Python scalar;  otherwise space.element(result), which needs
+     len(result) = n and, per part, np.array(result[i], dtype, ndmin=rank) of the
+     part shape (ValueError otherwise), and converts to the dtype of the SPACE.
+   outer does not call __array_wrap__ (plain ndarray), at refuses a non-array
+   first operand, an element as out= is refused (TypeError). *)
+Inductive wrapped :=
+  | WScal (v : T) | WArrRes (r : @narr T) | WElem (d : dt) (shape : list nat) (data : list T).
+
+Definition wrap_pspace (n : nat) (s : list nat) (d : dt) (r : @narr T) : res wrapped :=
+  match a_shape r with
+  | [] => match a_data r with v :: _ => Ok (WScal v) | [] => Err EUnmodelled end
+  | m :: rs =>
+      if negb (m =? n)%nat then Err EValue
+      else if shape_eqb (repeat 1%nat (length s - length rs) ++ rs) s
+           then Ok (WElem d (n :: s) (map (conv (a_dt r) d) (a_data r)))
+           else Err EValue
+  end.
+Fixpoint wrap_all (n : nat) (s : list nat) (d : dt) (rs : list (@narr T)) : res (list wrapped) :=
+  match rs with
+  | [] => Ok []
+  | r :: rs' => match wrap_pspace n s d r, wrap_all n s d rs' with
+                | Ok w, Ok l => Ok (w :: l)
+                | Err e, _ => Err e
+                | _, Err e => Err e
+                end
+  end.
+(* [r] = what NumPy computes on the arrays *)
+Definition pspace_np (m : meth) (out_is_elem out_is_arr : bool) (n : nat) (s : list nat) (d : dt)
+           (r : res (list (@narr T))) : res (list wrapped) :=
+  if out_is_elem then Err EType
+  else if out_is_arr && negb (is_at m)
+  then (* an ndarray given as out is returned as it is *)
+       match r with Ok rs => Ok (map WArrRes rs) | Err e => Err e end
+  else match m with
+       | MAt => Err EType
+       | MOuter => match r with Ok rs => Ok (map WArrRes rs) | Err e => Err e end
+       | _ => match r with Ok rs => wrap_all n s d rs | Err e => Err e end
+       end.
+
 End Legacy.
